@@ -321,6 +321,10 @@ def run(ctx: Ctx):
     ctx.guard(rule_scan_direction, ctx)
     ctx.guard(rule_recognisable, ctx, data)
     ctx.guard(rule_append_order, ctx, "R-C01-7")
+    from ..backscan import rule_backscan
+
+    ctx.guard(rule_backscan, ctx, "R-C01-10", True)
+    ctx.floor("R-C01-10", 7)
     ctx.floor("R-C01-1", 6)
     ctx.floor("R-C01-3", 30)
     ctx.floor("R-C01-4", 20)
